@@ -306,6 +306,16 @@ class Ring:
 
     # ---- Expr -> Rat
     def normal(self, e: Expr) -> Rat:
+        # installing a side relation clears the memo while a traversal is running; entries of already finished
+        # sub-terms are then missing when their parent is assembled -> restart the traversal (relations persist)
+        for _ in range(50):
+            try:
+                return self._normal(e)
+            except KeyError:
+                continue
+        return self._normal(e)
+
+    def _normal(self, e: Expr) -> Rat:
         memo = self.memo
         r = memo.get(e.id)
         if r is not None:
